@@ -5,7 +5,8 @@ Vocabulary (identical to Merge.tla):
   cell  = {rk, sk, rdoc, sdoc, rann, sann, sret, rpar, spar, rov, sov, irk, isk, ibare}
           rpar in two|none (runtime function has parameters p, q / none); spar in same|diff|none (stub: p, q / p, r / none)
           rk in abs|cls|fun|att|al_ext|al_fun|al_cls|al_att      (runtime side of the name)
-          sk in abs|cls|fun|att|al|ovo                            (stub side; ovo = @overload signatures only)
+          sk in abs|cls|fun|att|al|al_fun|ovo                     (stub side; ovo = @overload signatures only; al: import of an
+                                                                   unloaded module's object, al_fun: of an object of the loaded `tgt`)
           irk/isk: the same for the inner name `u` of a class (no nested classes with members)
   place = sub   pkg/mod.py + pkg/mod.pyi                 (sibling .pyi; implicit merge in set_member)
           top   mod.py + mod.pyi in the search path        (sibling .pyi of a single-file top-level module)
@@ -152,6 +153,8 @@ def render_side(case: dict, side: str) -> str:
                 out += _att(name, ann, doc, "", True)
             elif k == "al":
                 out.append(f"from elsewhere import yy as {name}")
+            elif k == "al_fun":
+                out.append(f"from tgt import fn_{name} as {name}")
             elif k == "ovo":
                 out += _ovo(name, ["p", "q"], "", False)
     return "\n".join(out) + "\n"
